@@ -174,13 +174,51 @@ fn upd(cur: &mut CProps, new: &JProps, mode: UpdMode) {
 }
 
 /// Is the history's meaning settled by the property? Not when a node is deleted while it has
-/// relationships (refuse / cascade / dangle are all defensible) or an id is created while live.
+/// relationships (refuse / cascade / dangle are all defensible).
+///
+/// A creation over an id that is still stored IS settled: the request carries the whole
+/// entity, the unchanged tree acknowledges it (NodeCreated / EdgeCreated; put_node / put_edge
+/// replace the stored value), so "the effect of the requests in order" is that the later
+/// creation's labels / endpoints / type / properties stand. The model's `insert` does exactly
+/// that. If a tree refuses such a creation instead, it is not acknowledged and not applied.
 fn mut_ambiguous(g: &G, m: &Mut) -> bool {
     match m {
-        Mut::CreateNode { id, .. } => g.nodes.contains_key(id),
-        Mut::CreateEdge { id, .. } => g.edges.contains_key(id),
         Mut::DeleteNode { id } => g.nodes.contains_key(id) && g.incident(*id),
         _ => false,
+    }
+}
+
+/// number of creations in the sequence that hit an id live at that point (every mutation
+/// taken as applied) — generator-health class `create_over_existing_id`
+fn count_create_over_existing<'a>(muts: impl Iterator<Item = Mut<'a>>) -> usize {
+    let cfg = ModelCfg { upd: UpdMode::Replace, empty_labels_as_empty_string: false };
+    let mut g = G::default();
+    let mut n = 0;
+    for m in muts {
+        match &m {
+            Mut::CreateNode { id, .. } if g.nodes.contains_key(id) => n += 1,
+            Mut::CreateEdge { id, .. } if g.edges.contains_key(id) => n += 1,
+            _ => {}
+        }
+        model_apply(&mut g, &m, cfg);
+    }
+    n
+}
+
+/// labels for a creation over a live node: the generated set, changed if it would repeat
+/// the stored labels and properties exactly
+fn different_labels(cur: &(BTreeSet<String>, CProps), labels: Vec<String>, props: &JProps) -> Vec<String> {
+    let set: BTreeSet<String> = labels.iter().cloned().collect();
+    if set == cur.0 && jprops_canon(props) == cur.1 {
+        if set.contains("C") {
+            labels.into_iter().filter(|l| l != "C").collect()
+        } else {
+            let mut l = labels;
+            l.push("C".to_string());
+            l
+        }
+    } else {
+        labels
     }
 }
 
@@ -896,6 +934,24 @@ fn c16_build(raw: &[RawOp]) -> Vec<POp> {
         let free_edges: Vec<u64> = (1..=IDS).filter(|i| !g.edges.contains_key(i)).collect();
         let absent = *c < 6000; // ~9 %: aim at an absent id
         let op = match kind {
+            // ~20 %: create over an id that is still stored, with different labels/properties
+            0 if !live_nodes.is_empty() && *b < 13000 => {
+                let id = live_nodes[pick_idx(*a, live_nodes.len())];
+                let props = build_props(props, false);
+                POp::CreateNode { id, labels: different_labels(&g.nodes[&id], label_set(*mask), &props), props }
+            }
+            // 25 % (mask 6, 7): relationship over an id that is still stored, new endpoints/type/properties
+            1 if !live_nodes.is_empty() && !live_edges.is_empty() && *mask >= 6 => {
+                let id = live_edges[pick_idx(*a, live_edges.len())];
+                let (src, dst) = (live_nodes[pick_idx(*b, live_nodes.len())], live_nodes[pick_idx(*c, live_nodes.len())]);
+                let props = build_props(props, false);
+                let cur = &g.edges[&id];
+                let mut ty = TYPES[*mask as usize % 3].to_string();
+                if (src, dst, &ty, &jprops_canon(&props)) == (cur.0, cur.1, &cur.2, &cur.3) {
+                    ty = TYPES[(*mask as usize + 1) % 3].to_string();
+                }
+                POp::CreateEdge { id, src, dst, ty, props }
+            }
             0 if !free_nodes.is_empty() => POp::CreateNode { id: free_nodes[pick_idx(*a, free_nodes.len())], labels: label_set(*mask), props: build_props(props, false) },
             1 if !live_nodes.is_empty() && !free_edges.is_empty() => POp::CreateEdge {
                 id: free_edges[pick_idx(*a, free_edges.len())],
@@ -971,6 +1027,8 @@ fn c16_fixed_history() -> Vec<POp> {
         POp::DeleteNode { id: 2 },
         POp::Checkpoint,
         POp::CreateNode { id: 2, labels: vec!["C".into()], props: JProps::new() },
+        // creation over an id that is still stored: the later one stands
+        POp::CreateNode { id: 1, labels: vec!["B".into()], props: p("q", PropertyValue::Integer(7)) },
     ]
 }
 
@@ -1042,11 +1100,11 @@ fn c16(args: &Args) {
     let mut ev = Evidence::new(
         args,
         "fault_enumeration",
-        "histories (<= 25 ops: persist_create_node/edge, persist_delete_*, persist_update_node_properties, persist_update_edge_properties, flush, checkpoint; ids 1..=6 with reuse, boundary property values) run in a fork()ed child that _exit()s at a chosen hook hit inside an operation (after quota check / WAL append / storage write / usage update) or right after an acknowledgement, or shuts down cleanly; a separate recovery process reopens the directory and calls recover(tenant); oracle = recovered graph (ids, labels, endpoints, types, typed properties) equals the reference model over the acknowledged ops, optionally plus the op in flight applied whole. Part A enumerates EVERY crash point of a fixed all-kinds history and of generated short histories; part B draws (history, crash point) pairs, one in six from a counter-drain class (k creations, at least k deletes of ids that do not exist, then deletes of ids that do). Non-trivial = the crash fell strictly inside an operation, or the history contains a property update; distinct = distinct (history, crash point).",
+        "histories (<= 25 ops: persist_create_node/edge — about one in five over an id that is still stored, with different content —, persist_delete_*, persist_update_node_properties, persist_update_edge_properties, flush, checkpoint; ids 1..=6 with reuse, boundary property values) run in a fork()ed child that _exit()s at a chosen hook hit inside an operation (after quota check / WAL append / storage write / usage update) or right after an acknowledgement, or shuts down cleanly; a separate recovery process reopens the directory and calls recover(tenant); oracle = recovered graph (ids, labels, endpoints, types, typed properties) equals the reference model over the acknowledged ops, optionally plus the op in flight applied whole. Part A enumerates EVERY crash point of a fixed all-kinds history and of generated short histories; part B draws (history, crash point) pairs, one in six from a counter-drain class (k creations, at least k deletes of ids that do not exist, then deletes of ids that do). Non-trivial = the crash fell strictly inside an operation, or the history contains a property update; distinct = distinct (history, crash point).",
     );
     ev.assume("a process crash is modelled by _exit(2) semantics: everything write(2)n survives, user-space buffers are lost; power loss is not modelled");
     ev.assume("a property update may be read as replacing the property map or as merging into it; either reading, applied consistently, satisfies the oracle; updates carry no top-level null");
-    ev.assume("histories stay in the unambiguous domain: ids are created only while free, relationships join live nodes, a node is deleted only when it has no relationships");
+    ev.assume("histories stay in the unambiguous domain: relationships join live nodes, a node is deleted only when it has no relationships; a creation over an id that is still stored is in the domain (it is acknowledged on the unchanged tree and replaces the stored entity, so the later creation stands)");
     let kf = Known::load(args);
 
     if let Some(p) = &args.replay {
@@ -1085,6 +1143,11 @@ fn c16(args: &Args) {
         ev.case();
         ev.class(class);
         let has_update = case.ops.iter().any(|o| o.is_update());
+        let executed = case.crash.map(|c| c.op + 1).unwrap_or(case.ops.len());
+        let over = count_create_over_existing(case.ops.iter().take(executed).map(|o| o.as_mut()));
+        if over > 0 {
+            ev.class("create_over_existing_id");
+        }
         match c16_run(case, kf_updates) {
             C16Verdict::Held { inside, site, refusals } => {
                 ev.class(&site.split('(').next().unwrap().to_string());
@@ -2408,7 +2471,7 @@ fn c32_check(rt: &tokio::runtime::Runtime, case: &C32Case, kf: &C32Kf) -> C32Ver
     for (r, o) in outs.iter().enumerate() {
         let (_, _, ambiguous) = c32_model(case, &o.acks, strict_cfgs[0]);
         if ambiguous {
-            // a node deleted while it had relationships, or an id created while live: the
+            // a node deleted while it had relationships: the
             // property does not settle the outcome; replicas were still compared above
             ambiguous_any = true;
             continue;
@@ -2486,6 +2549,25 @@ fn c32_build(raw: &[RawReq]) -> Vec<Req> {
         let odd = *c < 10000; // ~15 %: aim at an absent id / missing endpoint
         let all_ids: Vec<u64> = (1..=IDS).collect();
         let rq = match kind {
+            // ~20 %: CreateNode over an id that is still stored, with different labels/properties
+            0 if !live_nodes.is_empty() && *b < 13000 => {
+                let id = live_nodes[pick_idx(*a, live_nodes.len())];
+                let props = build_props(props, false);
+                Req::CreateNode { t, id, labels: different_labels(&g.nodes[&id], label_set(*mask), &props), props }
+            }
+            // 25 % (mask 6, 7): CreateEdge over an id that is still stored, new endpoints/type/properties
+            1 if !live_edges.is_empty() && *mask >= 6 => {
+                let id = live_edges[pick_idx(*a, live_edges.len())];
+                let pool: &Vec<u64> = if odd || live_nodes.is_empty() { &all_ids } else { &live_nodes };
+                let (src, dst) = (pool[pick_idx(*b, pool.len())], pool[pick_idx(*c, pool.len())]);
+                let props = build_props(props, false);
+                let cur = &g.edges[&id];
+                let mut ty = TYPES[*mask as usize % 3].to_string();
+                if (src, dst, &ty, &jprops_canon(&props)) == (cur.0, cur.1, &cur.2, &cur.3) {
+                    ty = TYPES[(*mask as usize + 1) % 3].to_string();
+                }
+                Req::CreateEdge { t, id, src, dst, ty, props }
+            }
             0 if !free_nodes.is_empty() => Req::CreateNode { t, id: free_nodes[pick_idx(*a, free_nodes.len())], labels: label_set(*mask), props: build_props(props, false) },
             1 if !free_edges.is_empty() && (!live_nodes.is_empty() || odd) => {
                 let pool: &Vec<u64> = if odd || live_nodes.is_empty() { &all_ids } else { &live_nodes };
@@ -2552,7 +2634,7 @@ fn c32(args: &Args) {
     let mut ev = Evidence::new(
         args,
         "exploration",
-        "sequences (<= 20) of replicated Requests (create/delete node and relationship, node/relationship property updates with versions, read-only query; ids 1..=5 with reuse, relationships to missing nodes, deletes and updates of absent ids, requests to a tenant no replica knows, optional small tenant quotas so creations fail; boundary property values; plus a counter-drain class: k creations, at least k deletes of ids that do not exist, then deletes of ids that do, ordered and interleaved) applied to 2-3 GraphStateMachines on fresh directories (even replicas through RaftNode::write, odd ones through GraphStateMachine::apply), each closed, reopened and recovered. Oracle: recovered graphs (ids, labels, endpoints, types, typed properties; timestamps ignored) identical on all replicas — always; and equal to the reference model that applies every request acknowledged with a non-error response, in order — on histories whose meaning is settled (no node deleted while it has relationships, no id created while live). Non-trivial = the sequence contains a property update or a request answered with an error; distinct = distinct cases.",
+        "sequences (<= 20) of replicated Requests (create/delete node and relationship, node/relationship property updates with versions, read-only query; ids 1..=5 with reuse, relationships to missing nodes, deletes and updates of absent ids, requests to a tenant no replica knows, optional small tenant quotas so creations fail; boundary property values; plus a counter-drain class: k creations, at least k deletes of ids that do not exist, then deletes of ids that do, ordered and interleaved) applied to 2-3 GraphStateMachines on fresh directories (even replicas through RaftNode::write, odd ones through GraphStateMachine::apply), each closed, reopened and recovered. Oracle: recovered graphs (ids, labels, endpoints, types, typed properties; timestamps ignored) identical on all replicas — always; and equal to the reference model that applies every request acknowledged with a non-error response, in order — on histories whose meaning is settled (no node deleted while it has relationships). A CreateNode/CreateEdge over an id that is still stored, with different labels/endpoints/type/properties, is generated in about one creation in five and is settled: it is acknowledged and the later creation stands. Non-trivial = the sequence contains a property update or a request answered with an error; distinct = distinct cases.",
     );
     ev.assume("a property update may be read as replacing the property map or as merging into it; either reading, applied consistently, satisfies the oracle; updates carry no top-level null");
     ev.assume("a replica holds data for one tenant only (tenant scans are unbounded above, C17); the unknown tenant never holds data unless a creation for it is wrongly accepted");
@@ -2605,6 +2687,11 @@ fn c32(args: &Args) {
         }
         if case.reqs.iter().any(|r| matches!(r, Req::CreateNode { labels, .. } if labels.is_empty())) {
             ev.class("has_unlabelled_node");
+        }
+        let over = count_create_over_existing(case.reqs.iter().filter(|r| r.t() == 0).map(|r| r.as_mut()));
+        if over > 0 {
+            ev.class("create_over_existing_id");
+            ev.class_n("create_over_existing_id_requests", over as u64);
         }
         let key = serde_json::to_string(case).unwrap();
         match c32_check(&rt, case, &kf) {
